@@ -72,7 +72,7 @@ def convex2(v):
 
 
 SPECS = ("plain", "bounded", "fd2", "fd3", "scaler", "restart", "update", "raises", "print",
-         "ownbuf", "restartnow")
+         "ownbuf", "restartnow", "tgt0big")
 
 
 class Boom(Exception):
@@ -197,6 +197,12 @@ def make_call(spec, v, point=None, log=None, logger=None, iprint=None, nested=No
             x0_ = [2.5 + 0.01 * v] if nn == 1 else [0.7 + 0.01 * v, 0.2, 1.9]
             args = dict(x0=ro(x0_), fun=wrapf(f), jac=wrap(g), bounds=None,
                         **dict(kwc, maxls=(3 if nn == 1 else 20)))
+    elif spec == "tgt0big":
+        # target already met at x0, 400 variables: the call returns at once (what it
+        # reports must not depend on what happens to lie in freshly allocated memory)
+        xb = ro(np.linspace(-1.0, 1.0, 400) + 0.01 * v)
+        args = dict(x0=xb, fun=wrapf(lambda x: float(x @ x)), jac=wrap(lambda x: 2 * x),
+                    bounds=None, ftarget=1e9, **kw)
     elif spec in ("scaler32", "scaler0d"):
         # a gradient scaler handing its factor back as a numpy float32 / a 0-d array
         p = convex3(v)
@@ -342,8 +348,15 @@ def run(case):
             if str(si) not in pr:
                 rechecked.add(si)
         for pos, si in enumerate(case["seq"]):
+            # the caller's numpy error handling, set to numpy's own default for the call
+            # (the harness's workers otherwise run with everything ignored)
+            err_worker = np.seterr(divide="warn", over="warn", under="ignore", invalid="warn")
+            err0 = np.geterr()
             try:
-                d, ok = make_call(SPECS[si], v)()
+                import warnings as _w
+                with _w.catch_warnings():
+                    _w.simplefilter("ignore")
+                    d, ok = make_call(SPECS[si], v)()
             except core.CaseTimeout:
                 raise
             except Exception as e:
@@ -359,6 +372,11 @@ def run(case):
                                   position=pos))
             if not ok:
                 viol.append(V("caller_inputs_modified", spec=SPECS[si], position=pos))
+            if np.geterr() != err0:
+                # the caller's numpy floating-point error handling is process state too
+                viol.append(V("caller_numpy_error_state_changed", spec=SPECS[si], position=pos,
+                              before=err0, after=np.geterr()))
+            np.seterr(**err_worker)
         return dict(viol=viol[:4], outcome=f"seq{len(case['seq'])}",
                     nontrivial=core.case_hash(case) if len(case["seq"]) >= 2 else None)
     if part == "log":
